@@ -347,8 +347,8 @@ def make_emitter(spec, archive, seed, k, sibling=False, es_kwargs=None):
             batch_size=spec.get("batch", 4), seed=s, es_kwargs=es_kwargs)
     if kind == "gop":
         # the iso_line_dd operator samples elites in ask_dqd and therefore needs initial_solutions, not x0
-        start = ({"initial_solutions": np.array([x0, x0 + 0.5, x0 - 0.7])} if spec.get("op") == "iso_line_dd"
-                 else {"x0": x0})
+        init = spec.get("start", "init" if spec.get("op") == "iso_line_dd" else "x0") == "init"
+        start = {"initial_solutions": np.array([x0, x0 + 0.5, x0 - 0.7])} if init else {"x0": x0}
         return _spy(E.GradientOperatorEmitter)(
             archive, sigma=0.1, sigma_g=0.2, line_sigma=spec.get("line", 0.0), **start,
             measure_gradients=bool(spec.get("mg", False)), normalize_grad=bool(spec.get("norm", False)),
@@ -815,7 +815,7 @@ def seed_change_verdict(case, ch, oa, os_):
     if oa.active.get(ch - 1, 0) == 0:
         return "inconclusive"  # the emitter was never asked (inactive in the bandit pool)
     e = case["emitters"][ch - 1]
-    if e["kind"] == "gop" and e.get("op") == "iso_line_dd":
+    if e["kind"] == "gop" and e.get("start", "init" if e.get("op") == "iso_line_dd" else "x0") == "init":
         # built with initial_solutions: its first batch is those solutions whatever the seed
         return "differs" if first_diff(oa, os_, "ask") is not None else "same"
     # the first batch an emitter emits is drawn from its own stream alone, so it must change with its seed
@@ -938,13 +938,29 @@ def archive_spec(rng, kind=None, method=None, sk=None, big=None):
     return spec
 
 
-def simple_emitter(rng, kind=None, sk=None):
+# The coverage lattice: every emitter kind x every constructor option that changes WHICH random numbers are drawn
+# (operator, operator_type, measure_gradients, start from x0 / initial_solutions, bounds, evolution strategy).  The
+# strata walk through it in a fixed order, so that every configuration occurs in every run -- also in the quick
+# tier -- instead of by chance; the other fields of a case stay random.
+SIMPLE_LATTICE = [("gauss", {"bounds": False}), ("gen", {"op": "isoline"}), ("iso", {}), ("gen", {"op": "gaussian"}),
+                  ("gauss", {"bounds": True})]
+GOP_LATTICE = [
+    {"op": "iso_line_dd", "mg": False, "line": 0.2, "start": "x0"},
+    {"op": "iso_line_dd", "mg": True, "line": 0.2, "start": "init"},
+    {"op": "isotropic", "mg": True, "line": 0.0, "start": "x0"},
+    {"op": "isotropic", "mg": False, "line": 0.0, "start": "x0"},
+    {"op": "iso_line_dd", "mg": False, "line": 0.0, "start": "init"},
+]
+
+
+def simple_emitter(rng, kind=None, sk=None, opts=None):
     kind = kind or rng.choice(["gauss", "iso", "gen"])
     e = {"kind": kind, **seed_fields(rng, sk), "batch": rng.choice([2, 3, 5])}
     if kind == "gen":
         e["op"] = rng.choice(["gaussian", "isoline"])
     if kind == "gauss":
         e["bounds"] = rng.random() < 0.3
+    e.update(opts or {})
     return e
 
 
@@ -980,10 +996,13 @@ ES_KWARGS = {  # valid es_kwargs per evolution strategy
 }
 
 
-def gop_emitter(rng, sk=None):
-    return {"kind": "gop", **seed_fields(rng, sk), "batch": rng.choice([2, 3]),
-            "mg": rng.random() < 0.5, "norm": rng.random() < 0.5, "line": rng.choice([0.0, 0.2]),
-            "op": rng.choice(["isotropic", "iso_line_dd"])}
+def gop_emitter(rng, sk=None, opts=None):
+    e = {"kind": "gop", **seed_fields(rng, sk), "batch": rng.choice([2, 3]),
+         "mg": rng.random() < 0.5, "norm": rng.random() < 0.5, "line": rng.choice([0.0, 0.2]),
+         "op": rng.choice(["isotropic", "iso_line_dd"])}
+    e["start"] = rng.choice(["x0", "init"]) if e["op"] == "iso_line_dd" else "x0"
+    e.update(opts or {})
+    return e
 
 
 class Cycle:
@@ -1015,11 +1034,27 @@ def strata(ctx):
     rot = {"es": 0, "dqd": 0}  # the seed kind of the stratum's main emitter rotates: child, int, SeedSequence, ...
     # the rankers that draw (random directions) come first in every run, given as the class itself first
     r0 = ctx.rng("es-first")
-    cyc_es = Cycle(ctx, "es", [(es, r) for es in ES_NAMES for r in RANKERS],
-                   first=[(r0.choice(ES_NAMES), "rd"), (r0.choice(ES_NAMES), "2rd")])
+    es_first = [(r0.choice(ES_NAMES), "rd"), (r0.choice(ES_NAMES), "2rd")]
+    # ... then the evolution strategies take turns (all five within any five consecutive cases)
+    per_es = {es: [r for r in RANKERS if (es, r) not in es_first] for es in ES_NAMES}
+    for es in ES_NAMES:
+        r0.shuffle(per_es[es])
+    es_order = [es for es in ES_NAMES if es not in (es_first[0][0], es_first[1][0])] + \
+        [es for es in ES_NAMES if es in (es_first[0][0], es_first[1][0])]
+    rr = [(es, per_es[es][j]) for j in range(len(RANKERS)) for es in es_order if j < len(per_es[es])]
+    cyc_es = Cycle(ctx, "es", [(es, r) for es in ES_NAMES for r in RANKERS], first=es_first + rr)
     rd_forms = [0]
+    ga_es = list(ES_NAMES)
+    r0.shuffle(ga_es)
+    dqd_first = []
+    for j in range(max(len(GOP_LATTICE), len(ga_es))):  # gop and ga configurations alternate, Iso+LineDD first
+        if j < len(GOP_LATTICE):
+            dqd_first.append(("gop", j, None))
+        if j < len(ga_es):
+            dqd_first.append(("ga", ga_es[j], r0.choice(["imp", "2imp", "rd", "obj"])))
     cyc_dqd = Cycle(ctx, "dqd", [("ga", es, r) for es in ES_NAMES for r in ("imp", "2imp", "rd", "obj")]
-                    + [("gop", None, None)] * 4)
+                    + [("gop", j, None) for j in range(len(GOP_LATTICE))], first=dqd_first)
+    simple_i = [r0.randrange(len(SIMPLE_LATTICE))]
     cyc_mixed = Cycle(ctx, "mixed", [(s, am, ra) for s in ("plain", "bandit") for am in ("batch", "single")
                                      for ra in (False, True)])
 
@@ -1030,7 +1065,10 @@ def strata(ctx):
         n_iter = rng.randint(2, 4 * L)
         c = base_case(rng, n_iter)
         c["archive"] = archive_spec(rng, kind, method, sk, big=True)  # k-means: >= 1000 samples in this stratum
-        c["emitters"] = [simple_emitter(rng) for _ in range(rng.randint(1, 2))]
+        kind1, opts1 = SIMPLE_LATTICE[simple_i[0] % len(SIMPLE_LATTICE)]  # the simple emitters take turns
+        simple_i[0] += 1
+        c["emitters"] = [simple_emitter(rng, kind1, opts=opts1)] + \
+            [simple_emitter(rng) for _ in range(rng.randint(0, 1))]
         c["change"] = 0 if rng.random() < 0.6 else rng.randrange(4)
         c["sched"] = rng.choice(["plain", "plain", "bandit"])
         c["num_active"] = 1
@@ -1071,10 +1109,11 @@ def strata(ctx):
         if kind == "ga":
             c["emitters"] = [es_emitter(rng, c["archive"]["kind"], es, ranker, kind="ga", sk=sk)]
         else:
-            c["emitters"] = [gop_emitter(rng, sk=sk)]
+            c["emitters"] = [gop_emitter(rng, sk=sk, opts=GOP_LATTICE[es])]
         if rng.random() < 0.4:
             c["emitters"].append(simple_emitter(rng))
-        c["change"] = 1 if sk == "child" else rng.randrange(1, 4)
+        # run (iii) mostly changes the seed of the stratum's main emitter
+        c["change"] = 1 if sk == "child" or rng.random() < 0.6 else rng.randrange(1, 4)
         return c
 
     def g_mixed(rng):
@@ -1228,9 +1267,11 @@ def run(ctx):
                          f"concrete failing input, strata order {order}")
     plan = {  # stratum -> (cases, time budget in s)
         "archives": (ctx.n(16, 700), 10 if ctx.quick else 120),
-        "es": (ctx.n(12, 1000), 9 if ctx.quick else 200),
-        "dqd": (ctx.n(6, 500), 5 if ctx.quick else 90),
-        "mixed": (ctx.n(6, 700), 5 if ctx.quick else 110),
+        # the budgets of es / dqd are caps that include numba's one-off compilation of the native strategies
+        # (about 12 s per process, paid by whichever stratum uses them first); the cases themselves take ~0.1 s
+        "es": (ctx.n(12, 1000), 18 if ctx.quick else 200),
+        "dqd": (ctx.n(10, 500), 10 if ctx.quick else 90),
+        "mixed": (ctx.n(6, 700), 6 if ctx.quick else 110),
         "eskw": (ctx.n(7, 500), 6 if ctx.quick else 80),
     }
     # (ii) in a fresh interpreter (about 2 s each): quick 1 case, thorough 8 per stratum
